@@ -67,6 +67,22 @@ theorem streaming_batch_irrelevant (known : Nat → Bool) (b1 b2 : Nat) (pg : Pa
 theorem recovery_idempotent (d : Disk) : recover { pages := recover d, wal := d.wal } = recover d :=
   C01.redo_idempotent d.pages d.wal
 
+/-- recovery is restartable: a second crash after recovery has redone only the first `j` frames
+(for ANY `j`; the WAL is truncated only after the whole replay), followed by a full recovery,
+gives the same pages as one uninterrupted recovery -/
+theorem recovery_restartable (d : Disk) (j : Nat) :
+    recover { pages := redo d.pages (d.wal.take j), wal := d.wal } = recover d := by
+  unfold recover
+  show redo (redo d.pages (d.wal.take j)) d.wal = redo d.pages d.wal
+  calc redo (redo d.pages (d.wal.take j)) d.wal
+      = redo (redo d.pages (d.wal.take j)) (d.wal.take j ++ d.wal.drop j) := by
+          rw [List.take_append_drop]
+    _ = redo (redo (redo d.pages (d.wal.take j)) (d.wal.take j)) (d.wal.drop j) :=
+          redo_append _ _ _
+    _ = redo (redo d.pages (d.wal.take j)) (d.wal.drop j) := by rw [C01.redo_idempotent]
+    _ = redo d.pages (d.wal.take j ++ d.wal.drop j) := (redo_append _ _ _).symm
+    _ = redo d.pages d.wal := by rw [List.take_append_drop]
+
 /-- prefix consistency under power loss, for every protocol trace and crash index: the recovered
 pages are those after a prefix of the statements — the acknowledged ones, or those plus the whole
 in-flight statement; never a part of a statement. -/
